@@ -467,7 +467,7 @@ pub fn run_c04(seed: u64, thorough: bool, shards: u64) -> Leg {
     let mut total = Leg::new(
         "c04-size-inproc",
         "C04",
-        "generated replies (0..400 records, total size 12..65535) through the listener's prepare_to_send/serialise_with_size for limits {0,256,512,513,1232,4096,65535, full-1, full, full+1, random}: output parses with the reference decoder (counts = contents, no trailing octets), length <= max(512, limit), kept records are a prefix, TC iff records omitted; distinct = (limit class, full-size class, fits/truncate)",
+        "generated replies (0..400 records, total size 12..65535) through the listener's prepare_to_send/serialise_with_size for limits {0,256,512,513,1232,4096,65535, full-1, full, full+1, random}: output parses with the reference decoder (counts = contents, no trailing octets), length <= max(512, limit), kept records are a prefix, TC iff records omitted; plus the limit the listener derives from a query (every advertised size x DO flag x other EDNS flags) within [512, max(512, advertised)]; distinct = (limit class, full-size class, fits/truncate)",
     );
     total.floor = 2_000;
     let n: u64 = if thorough { 600_000 } else { 6_000 };
@@ -476,6 +476,46 @@ pub fn run_c04(seed: u64, thorough: bool, shards: u64) -> Leg {
         let mut leg = total.child();
         handles.push(std::thread::spawn(move || {
             let mut r = Rng::derive(seed, shard, 0xC04);
+            // the limit the UDP listener applies is the one the parser takes from the query: for every advertised size, with and
+            // without the DO flag / other EDNS flags / options / an unknown EDNS version, it must lie within [512, max(512, advertised)]
+            for _ in 0..(n / shards / 4).max(200) {
+                let names = rn::gen_name_pool(&mut r, 3, false);
+                let qn = r.pick(&names).clone();
+                let mut q = rn::gen_query(&mut r, qn, false);
+                let adv: Option<u16> = match r.below(8) {
+                    0 => None,
+                    1 => Some(*r.pick(&[0u16, 1, 255, 256, 511, 512, 513, 600, 1219, 1220, 1232, 1400, 4096, 65_535])),
+                    2 => Some(r.u16()),
+                    _ => q.opt.as_ref().map(|o| o.udp_size),
+                };
+                match (adv, q.opt.as_mut()) {
+                    (None, _) => q.opt = None,
+                    (Some(a), Some(o)) => o.udp_size = a,
+                    (Some(a), None) => q.opt = Some(rn::Opt { udp_size: a, flags: if r.bool() { 0x8000 } else { 0 }, ..Default::default() }),
+                }
+                if let Some(o) = q.opt.as_mut() {
+                    if r.chance(1, 6) {
+                        o.flags = r.u16();
+                    }
+                }
+                let qw = rn::encode(&q, rn::Compress::None);
+                leg.eval();
+                let allowed = q.opt.as_ref().map(|o| o.udp_size.max(512)).unwrap_or(512);
+                match guard::guard(|| ev::parse(&qw).map(|p| p.bufsize)) {
+                    Ok(Ok(b)) => {
+                        leg.class(format!("udp-limit-from-query|adv{}|do{}", match q.opt.as_ref().map(|o| o.udp_size) { None => "none", Some(0..=511) => "<512", Some(512) => "512", Some(513..=1232) => "<=1232", Some(_) => "big" }, q.opt.as_ref().map(|o| o.flags & 0x8000 != 0).unwrap_or(false)));
+                        if b < 512 || b > allowed {
+                            leg.violation(
+                                "C04/udp-limit-taken-from-the-query-outside-512-to-advertised",
+                                format!("advertised {:?} (EDNS flags {:#06x}): the listener will limit its UDP response to {} octets, allowed is 512..={}", q.opt.as_ref().map(|o| o.udp_size), q.opt.as_ref().map(|o| o.flags).unwrap_or(0), b, allowed),
+                                json!({"engine": "c04", "kind": "limit-from-query", "query_hex": hex(&qw)}),
+                            );
+                        }
+                    }
+                    Ok(Err(_)) => leg.count("limit_from_query_rejected_by_parser", 1),
+                    Err(p) => leg.violation(format!("C04/panic/{}/{}", file_of(&p), p.class()), format!("{} at {}", p.message, p.location), json!({"engine": "c04", "kind": "limit-from-query", "query_hex": hex(&qw)})),
+                }
+            }
             for i in 0..n / shards {
                 let m = gen_structured(&mut r, false);
                 let wire = rn::encode(&m, rn::Compress::None);
